@@ -27,7 +27,7 @@ RULE = (
     "other compiles; non-trivial = pattern with >= 1 field spec; distinct = distinct (pattern text, node fingerprint)"
 )
 ASSUMPTIONS = ["sequence patterns applied to str-valued fields and field names that are properties/methods are not generated (don't-care)"]
-MUST_SEE = ["rules_given_as_iter", "rules_given_as_gen", "regex_on_hash_equal_values", 
+MUST_SEE = ["regex_inner_whitespace", "rules_given_as_iter", "rules_given_as_gen", "regex_on_hash_equal_values", 
     "tail_vs_too_short", "capture_on_seq_with_tail", "two_any_captures", "var_node_other_origin", "second_alternative_subclass",
     "matches", "mismatches", "reasked", "multi_questions", "regex_middle_only", "tail_capture", "empty_seq_vs_nonempty", "reasked_after_rejected",
 ]
@@ -283,3 +283,21 @@ def run_shard(ctx):
         got = m.match(lf)[0]
         if got != exp:
             ctx.violation("verdict", f"match verdict {got}, the regex applied to str(value) says {exp}", {"pattern": text, "value": repr(lf.v), "how": "hash-equal values in one history"})
+
+    # ---- patterns that differ only in the white space inside a regex literal are different patterns ----
+    ws_vals = ["a b", "a  b", "a\tb", "ab", "a\u00a0b", "a   b"]
+    ws_leaves = [U.cls[f"{P}Leaf"](v=100 + i, s=x) for i, x in enumerate(ws_vals)]
+    rxs = ["a b$", "a  b$", "a\tb$", "a\u00a0b$", "a   b$", "a *b$", "ab$"]
+    rng.shuffle(rxs)
+    for rx in rxs:
+        for text in (f'({P}Leaf @s="{rx}")', f'({P}Leaf  @s="{rx}" )'):
+            m, msg = NodeMatcher.from_pattern(text)
+            ctx.evaluations += 1
+            ctx.count("regex_inner_whitespace")
+            if m is None:
+                ctx.violation("well-formed-rejected", f"pattern rejected: {msg[:200]}", {"pattern": text})
+                continue
+            got = [m.match(lf)[0] for lf in ws_leaves]
+            exp = [_re2.match(rx, lf.s) is not None for lf in ws_leaves]
+            if got != exp:
+                ctx.violation("verdict", "a regex literal is not applied as written (white space inside the quotes matters)", {"pattern": text, "got": got, "expected": exp, "values": ws_vals})
